@@ -7,6 +7,7 @@ Require Import BB.Gen.Grammar BB.Gen.TablesXsl.
 Require Import BB.Base.Dict BB.Model.Peg BB.Model.Types BB.Proofs.Tables BB.Proofs.EscapeLossless.
 Require Import BB.Proofs.Totality BB.Proofs.PegPlain BB.Proofs.EscapedTextParses.
 Require Import BB.Model.UnparseDoc BB.Proofs.UnparseText BB.Proofs.PegLine BB.Proofs.WrittenText BB.Proofs.LineRule.
+Require Import BB.Base.Dict BB.Model.Types BB.Model.Peg BB.Gen.TablesParser BB.Model.Convert BB.Model.Eid BB.Model.EidSpec BB.Model.PreParse BB.Model.XmlGen BB.Gen.TablesLibs BB.Proofs.Totality BB.Proofs.PlainLineConvert BB.Proofs.ParagraphRoundTrip.
 
 (* the hand-maintained keyword list of escape-prefixes covers every keyword literal of the grammar,
    except the committed gaps *)
@@ -129,3 +130,22 @@ Proof. split; vm_compute; reflexivity. Qed.
 
 Example C06_example : (length (keywords akn_peg) = 94)%nat /\ covered (of_string "SUBPARA") = true /\ covered (of_string "ITEM") = true /\ covered (of_string "IMG") = false.
 Proof. repeat split; vm_compute; reflexivity. Qed.
+
+(* The round trip of a paragraph through the WHOLE pipeline model.  For every FRBR URI the model knows, every eId prefix and
+   every text s without tab or line break, without blanks at its ends and made of characters XML can hold - whatever it spells:
+   keywords, markers, braces, backslashes - unparsing <p eId="<prefix>__p_1">s</p> and converting the written text (pre_parse,
+   grammar, to_dict, XML builder, footnote resolution, normalisation, eId generation, attachment titles) gives that very element. *)
+Theorem C06_paragraph_round_trip : forall uri prefix s root_meta att_meta,
+  assoc_str uri meta_templates = Some (root_meta, att_meta) ->
+  Forall scalar s -> Forall (fun c => c <> TAB /\ c <> 10 /\ c <> 13) s -> edge_ok s -> valid_text s = true ->
+  let x := para (candidate prefix P_TAG (of_string "1")) s in
+  convert uri (of_string "hier_block_element") prefix (unparse_doc x) = OkR x.
+Proof. exact paragraph_round_trip. Qed.
+Print Assumptions C06_paragraph_round_trip.
+
+(* the instance the theorem predicts, evaluated: a paragraph that spells a keyword line with every kind of marker *)
+Example C06_round_trip_example :
+  let s := of_string "PART 1 - **x** {{^y}} \\ //z__ P{a b} {{*r}}" in
+  let x := para (of_string "sec_2__p_1") s in
+  convert (of_string "/akn/za/act/2009/1") (of_string "hier_block_element") (of_string "sec_2") (unparse_doc x) = OkR x.
+Proof. vm_compute. reflexivity. Qed.
